@@ -69,16 +69,26 @@ def assignments(vars_by_id, rng, k=12, cap=256):
 
 
 def mat(x):
-    """Materialise generators / iterables so that the argument can be walked twice (by the code and by the oracle)."""
+    """-> (for_callee, for_oracle).  The callee must see the SAME kind of object the caller passed (a one-shot iterable stays
+    one-shot: a helper that walks its arguments twice must show), the oracle gets an equal, re-walkable structure."""
     if isinstance(x, (Expr, bool, int)) or x is None:
-        return x
+        return x, x
     if isinstance(x, (A.Array1D, A.Array2D)):
-        return x
+        return x, x
     if isinstance(x, tuple):
-        return tuple(mat(y) for y in x)
+        pairs = [mat(y) for y in x]
+        return tuple(p[0] for p in pairs), tuple(p[1] for p in pairs)
+    if isinstance(x, list):
+        pairs = [mat(y) for y in x]
+        return [p[0] for p in pairs], [p[1] for p in pairs]
     if hasattr(x, "__iter__"):
-        return [mat(y) for y in x]
-    return x
+        if hasattr(x, "__len__") or hasattr(x, "__getitem__"):
+            pairs = [mat(y) for y in x]  # re-walkable container of another type (frame, range, ...)
+            return x, [p[1] for p in pairs]
+        pairs = [mat(y) for y in x]  # generator / map / zip / iterator: consumed here, re-issued as a fresh one-shot generator
+        callee_items = [p[0] for p in pairs]
+        return (y for y in callee_items), [p[1] for p in pairs]
+    return x, x
 
 
 def flat(x, out):
@@ -167,9 +177,9 @@ def _mk_helper(name, sem, want_kind):
         st = _state
         if st is None:
             return _orig[name](*args)
-        margs = [mat(a) for a in args]
-        res = _orig[name](*margs)
-        _agg_check(st, name, margs, res, sem, want_kind)
+        pairs = [mat(a) for a in args]
+        res = _orig[name](*[p[0] for p in pairs])
+        _agg_check(st, name, [p[1] for p in pairs], res, sem, want_kind)
         return res
     return wrapper
 
